@@ -53,6 +53,63 @@ pub struct EchoResp {
     pub attrs: Vec<(String, String)>,
 }
 
+macro_rules! resp_type {
+    ($name:ident) => {
+        #[derive(sylvia::serde::Serialize, sylvia::serde::Deserialize, Clone, Debug, PartialEq, sylvia::schemars::JsonSchema)]
+        #[serde(crate = "sylvia::serde")]
+        #[schemars(crate = "sylvia::schemars")]
+        pub struct $name {
+            pub attrs: Vec<(String, String)>,
+        }
+        impl From<Vec<(String, String)>> for $name {
+            fn from(attrs: Vec<(String, String)>) -> Self {
+                Self { attrs }
+            }
+        }
+    };
+}
+resp_type!(RespB);
+resp_type!(RespC);
+impl From<Vec<(String, String)>> for EchoResp {
+    fn from(attrs: Vec<(String, String)>) -> Self {
+        Self { attrs }
+    }
+}
+pub type QResultB<E> = Result<RespB, E>;
+
+/// `key=<title of the schema>/<is it the schema of the type of that name>` for every entry of a query-response table
+pub fn show_schemas(r: Result<std::collections::BTreeMap<String, sylvia::schemars::schema::RootSchema>, sylvia::cw_schema::IntegrityError>) -> String {
+    let m = match r {
+        Ok(m) => m,
+        Err(e) => return format!("err {}", e),
+    };
+    m.iter()
+        .map(|(k, s)| {
+            let title = s.schema.metadata.as_ref().and_then(|m| m.title.clone()).unwrap_or_default();
+            let same = match title.as_str() {
+                "EchoResp" => &sylvia::cw_schema::schema_for!(EchoResp) == s,
+                "RespB" => &sylvia::cw_schema::schema_for!(RespB) == s,
+                "RespC" => &sylvia::cw_schema::schema_for!(RespC) == s,
+                _ => false,
+            };
+            format!("{}={}/{}", k, title, same)
+        })
+        .collect::<Vec<_>>()
+        .join(",")
+}
+
+/// names referenced by the any_of of a contract-level message schema, in order
+pub fn show_any_of(root: sylvia::schemars::schema::RootSchema) -> String {
+    let subs = root.schema.subschemas.as_ref().and_then(|s| s.any_of.clone()).unwrap_or_default();
+    subs.iter()
+        .map(|s| match s {
+            sylvia::schemars::schema::Schema::Object(o) => o.reference.clone().unwrap_or_else(|| "<inline>".into()).replace("#/definitions/", ""),
+            _ => "<bool>".into(),
+        })
+        .collect::<Vec<_>>()
+        .join(",")
+}
+
 pub fn j<T: sylvia::serde::Serialize>(v: &T) -> String {
     to_json_string(v).unwrap_or_else(|e| format!("<unserialisable:{}>", e))
 }
@@ -199,6 +256,45 @@ pub fn base_wasm() -> WasmMsg {
 pub fn base_sub() -> SubMsg<Empty> {
     SubMsg { id: 999, payload: Binary::from(vec![1, 2]), msg: base_cosmos(), gas_limit: Some(77), reply_on: sylvia::cw_std::ReplyOn::Never }
 }
+
+pub use sylvia::builder::instantiate::InstantiateBuilder;
+pub use sylvia::types::{BoundQuerier, EmptyExecutorBuilderState, ExecutorBuilder, Remote};
+
+pub fn show_funds(f: &[Coin]) -> String {
+    f.iter().map(|c| format!("{}{}", c.amount, c.denom)).collect::<Vec<_>>().join("+")
+}
+
+/// setters spec: `l:<hex>;a:<hex>;f:<amount>` in application order
+pub fn apply_setters(mut b: InstantiateBuilder, spec: &str) -> (InstantiateBuilder, Option<Vec<u8>>) {
+    let mut salt = None;
+    for part in spec.split(';').filter(|p| !p.is_empty()) {
+        let (k, v) = part.split_once(':').unwrap_or((part, ""));
+        match k {
+            "l" => b = b.with_label(String::from_utf8_lossy(&unhex(v)).to_string()),
+            "a" => b = b.with_admin(String::from_utf8_lossy(&unhex(v)).to_string()),
+            "f" => b = b.with_funds(if v == "0" { vec![] } else { vec![Coin::new(v.parse::<u128>().unwrap_or(0), "utok")] }),
+            "s" => salt = Some(unhex(v)),
+            _ => {}
+        }
+    }
+    (b, salt)
+}
+
+pub fn show_wasm(m: &WasmMsg) -> String {
+    match m {
+        WasmMsg::Execute { contract_addr, msg, funds } => format!("execute addr={} funds={} body={}", contract_addr, show_funds(funds), String::from_utf8_lossy(msg.as_slice())),
+        WasmMsg::Instantiate { admin, code_id, msg, funds, label } => format!(
+            "instantiate code={} admin={} label={} funds={} body={}", code_id, admin.clone().unwrap_or_else(|| "-".into()), hex(label.as_bytes()), show_funds(funds), String::from_utf8_lossy(msg.as_slice())),
+        WasmMsg::Instantiate2 { admin, code_id, label, msg, funds, salt } => format!(
+            "instantiate2 code={} admin={} label={} funds={} salt={} body={}", code_id, admin.clone().unwrap_or_else(|| "-".into()), hex(label.as_bytes()), show_funds(funds), hex(salt.as_slice()),
+            String::from_utf8_lossy(msg.as_slice())),
+        WasmMsg::UpdateAdmin { contract_addr, admin } => format!("update_admin addr={} admin={}", contract_addr, admin),
+        WasmMsg::ClearAdmin { contract_addr } => format!("clear_admin addr={}", contract_addr),
+        other => format!("other {:?}", other),
+    }
+}
+
+thread_local! { pub static SEEN_QUERY: std::cell::RefCell<String> = std::cell::RefCell::new(String::new()); }
 
 pub fn resp_of<C>(attrs: Vec<(String, String)>) -> Response<C> {
     Response::new().add_attributes(attrs)
